@@ -771,6 +771,35 @@ func registerBig(e *Engine) {
 		st.hset(p.obj, BigFloatVal{f: cur.f, prec: pr})
 		return p
 	}
+	// Copy / Set: z takes x's value (Copy also its precision; Set keeps z's
+	// precision if it has one - the rounding is then done natively on concrete
+	// values and is the identity on abstract ones, like SetPrec)
+	cp := func(keepPrec bool) interceptFn {
+		return func(e *Engine, st *State, fr *Frame, in ssa.CallInstruction, a []Val) Val {
+			z := a[0].(PtrVal)
+			if z.obj == 0 {
+				abort("panic", "nil *big.Float")
+			}
+			x := getF(e, st, a[1])
+			cur := getF(e, st, z)
+			nv := BigFloatVal{f: x.f, prec: x.prec}
+			if x.conc != nil {
+				c := new(big.Float).Copy(x.conc)
+				if keepPrec && cur.prec != 0 {
+					c = new(big.Float).SetPrec(uint(cur.prec)).Set(x.conc)
+					nv.prec = cur.prec
+				}
+				f64, _ := c.Float64()
+				nv.conc, nv.f = c, ConstF64(f64)
+			} else if keepPrec && cur.prec != 0 {
+				nv.prec = cur.prec
+			}
+			st.hset(z.obj, nv)
+			return z
+		}
+	}
+	ic["(*math/big.Float).Copy"] = cp(false)
+	ic["(*math/big.Float).Set"] = cp(true)
 	ic["(*math/big.Float).Float64"] = func(e *Engine, st *State, fr *Frame, in ssa.CallInstruction, a []Val) Val {
 		if c := getF(e, st, a[0]).conc; c != nil {
 			f64, acc := c.Float64()
